@@ -298,20 +298,37 @@ type ProgCase struct {
 	Pair
 	Backend string // "vm" | "tree"
 	Form    string // "let" (annotated let, no scalar conversion) | "as" (explicit cast)
-	Route   string // "host" (any_val(0)) | "json" ("<text>".parse_json())
+	Route   string // "host" (any_val(0)) | "json" ("<text>".parse_json()) | "member" (h~>zk) | "member-opt" (h->zk, T = ?U)
 }
 
 func (c ProgCase) program() px.ProgCase {
 	var b strings.Builder
 	src := "any_val(0)"
 	pc := px.ProgCase{Entry: "main", Limits: sb.DefaultLimits()}
-	if c.Route == "json" {
+	pre := ""
+	switch c.Route {
+	case "json":
 		src = hs.QuoteStr(jsonText(c.V.V)) + ".parse_json()"
-	} else {
+	case "member", "member-opt":
+		// the value is a member of an any-object: `h~>zk` has type any, `h->zk` has type ?any
+		b.WriteString("import any_val from host;\n")
+		h := hs.NewObj(true)
+		src = "holder~>zk"
+		if c.Route == "member-opt" {
+			src = "holder->zk"
+			if o := c.V.V.(hs.OptV); o.Inner != nil {
+				h.Set("zk", o.Inner)
+			}
+		} else {
+			h.Set("zk", c.V.V)
+		}
+		pc.AnyVals = []hs.WV{{V: h}}
+		pre = "    let holder: { ? } = any_val(0);\n"
+	default:
 		b.WriteString("import any_val from host;\n")
 		pc.AnyVals = []hs.WV{c.V}
 	}
-	b.WriteString("fn main() {\n    try {\n")
+	b.WriteString("fn main() {\n" + pre + "    try {\n")
 	if c.Form == "as" {
 		fmt.Fprintf(&b, "        let x = %s as %s;\n", src, c.T.Src())
 	} else {
@@ -431,6 +448,7 @@ type HostCase struct {
 	Ret    hs.Type // the return type the host declares
 	Mode   string  // "arg": one argument may be bad | "ret": the declared return type may be wrong
 	Bad    int     // index of the interesting argument ("arg" mode)
+	Async  bool    // SpawnAsync + Wait + HandleTermination instead of SpawnSync
 	Class  string
 	Path   []PathElem `json:",omitempty"`
 }
@@ -453,9 +471,10 @@ func (c HostCase) module() string {
 	return b.String()
 }
 
+// retObservable: does the declared return type announce a value the host will read?
 func retObservable(t hs.Type) bool {
 	switch t.K {
-	case hs.KNull, hs.KAnyObj, hs.KAny, hs.KNever:
+	case hs.KNull, hs.KAny, hs.KNever:
 		return false
 	}
 	return true
@@ -466,7 +485,7 @@ func checkHost(c HostCase) *pk.Failure {
 	pc := px.ProgCase{Modules: map[string]string{"main": c.module()}, Entry: "main", Limits: sb.DefaultLimits()}
 	req := pc.Request("vm")
 	req.SkipMain = true
-	req.Invocations = []sb.Invocation{{Fn: "f", Args: c.Args, Params: c.Params, Ret: c.Ret}}
+	req.Invocations = []sb.Invocation{{Fn: "f", Args: c.Args, Params: c.Params, Ret: c.Ret, Async: c.Async}}
 	args := make([]string, len(c.Args))
 	for i, a := range c.Args {
 		args[i] = show(a.V)
@@ -485,7 +504,11 @@ func checkHost(c HostCase) *pk.Failure {
 		for i, a := range argV {
 			w[i] = a.word()
 		}
-		return fmt.Sprintf("SpawnSync f(%s), declared return type %s [%s, %s]\n  oracle: arguments %s; result against the declared return type: %s\n%s",
+		how := "SpawnSync"
+		if c.Async {
+			how = "SpawnAsync+Wait+HandleTermination"
+		}
+		return fmt.Sprintf(how+" f(%s), declared return type %s [%s, %s]\n  oracle: arguments %s; result against the declared return type: %s\n%s",
 			strings.Join(args, ", "), c.Ret.Src(), c.Mode, c.Class, strings.Join(w, ", "), retV.word(), pc.Modules["main"])
 	}
 	resp := px.Pool().Exec(req)
@@ -532,21 +555,6 @@ func checkHost(c HostCase) *pk.Failure {
 		}
 		if entered {
 			return pk.Failf(sub, "bad-arg-entered", "%s\n  a call with a non-conforming argument ran the callee before failing\n  %s", head(), how)
-		}
-		if inv.Refused != "" {
-			for i, a := range argV {
-				if a.MustNot && !strings.Contains(inv.Refused, fmt.Sprintf("Argument %d ", i)) {
-					pk.Class("doubt:refusal-names-other-argument")
-				}
-				if a.MustNot {
-					break
-				}
-			}
-			if strings.HasPrefix(c.Class, "near:") {
-				if ok, what, _ := pathNamed(strings.SplitN(inv.Refused, "type mismatch", 2)[len(strings.SplitN(inv.Refused, "type mismatch", 2))-1], c.Path); !ok {
-					pk.Class("doubt:host-refusal-without-path:" + what)
-				}
-			}
 		}
 		return nil
 	}
@@ -609,7 +617,7 @@ func checkHost(c HostCase) *pk.Failure {
 			return pk.Failf(sub, "good-ret-refused:"+msgClass(inv.Refused+inv.Outcome.Message), "%s\n  the result has the declared return type, yet the call failed\n  %s", head(), how)
 		}
 		if inv.Ret.V == nil {
-			return pk.Failf(sub, "ret-missing", "%s\n  no return value was handed over\n  %s", head(), how)
+			return pk.Failf(sub, "ret-missing:"+c.Ret.K.String(), "%s\n  no return value was handed over\n  %s", head(), how)
 		}
 		if !valEqual(inv.Ret.V, retV.Res) {
 			return pk.Failf(sub, "ret-value-changed", "%s\n  returned %s, expected %s\n  %s", head(), show(inv.Ret.V), show(retV.Res), how)
@@ -684,13 +692,16 @@ func TestProg(t *testing.T) {
 	pk.SkipIfReplay(t)
 	depth := pk.Scale(3, 4)
 	rapid.Check(t, func(rt *rapid.T) {
-		route := []string{"host", "json"}[rapid.IntRange(0, 2).Draw(rt, "route")/2]
+		route := []string{"host", "host", "json", "member"}[rapid.IntRange(0, 3).Draw(rt, "route")]
 		p := drawPair(rapidCh{rt}, pairOpts{depth: depth, tame: true, json: route == "json"})
 		form := []string{"let", "as"}[rapid.IntRange(0, 1).Draw(rt, "form")]
 		if route == "json" && !jsonRepresentable(p.V.V) {
 			pk.Eval()
 			pk.Discard("not-a-json-document")
 			return
+		}
+		if _, isOpt := p.V.V.(hs.OptV); route == "member" && isOpt && p.T.K == hs.KOpt {
+			route = "member-opt"
 		}
 		for _, b := range []string{"vm", "tree"} {
 			pk.Eval()
@@ -752,6 +763,7 @@ func drawHostCase(rt *rapid.T, depth int) HostCase {
 	}
 	c.Ret = c.Params[c.RetIdx]
 	c.Mode = "arg"
+	c.Async = ch.Pick(3, "async") == 2
 	if c.Class == "conforming" && ch.Pick(2, "mode") == 1 {
 		c.Mode = "ret"
 		// the host declares a return type of its own: a near type, or an unrelated one
